@@ -110,6 +110,12 @@ check("C20", "model_checking",
       "explicit-state lifecycle search + delay-bounded schedule DFS on the real agent; real binary for the CLI clause",
       "DESIGN.md §4 C20")
 
+check("C13", "fault_enumeration",
+      "A child process opens the on-disk store exactly as pool.go does, runs a history, reports every file's size after each acknowledged operation and is SIGKILLed without Close. For all histories of length 2 and half of those of length 3 (quick) / all of length 2-4 (thorough) over {SetNode, UpdateNodePeers, AddNodeBalance, AddAccountNode (three keys in one transaction), AddAccountBalance, nonce, close+reopen} every crash image 'killed after operation k' and, for the last operation, 'killed while it was being written' (value log cut inside the appended bytes: every byte for a representative subset, else every 16th plus both edges) is materialised, reopened through the real driver and compared getter by getter (plus nonce probes) with a reference model: exactly the acknowledged prefix, resp. the state before or after the interrupted operation and nothing else. Readers racing AddAccountNode / UpdateNodePeers are explored under the controlled scheduler with scheduling points inside the transaction closures; databases of format version 0/1/2 with every subset of key families and 0-2 old nonces are synthesised and opened twice (migration, idempotent reopen).",
+      "SIGKILL semantics (page cache survives); badger appends a commit with one write (validated on every run: the image cut at the final recorded size must equal the full history); recovery side opens with FileIO loading mode and small caches (same format and replay code); torn tails refused by production Open are reopened WithTruncate and counted.",
+      "crash-point / torn-write enumeration on the real persistent driver + schedule DFS for readers + exhaustive migration inputs",
+      "DESIGN.md §4 C13")
+
 ALL = ["C%02d" % i for i in range(1, 21)]
 NA_REASON = "check not built yet (work in progress; see DESIGN.md §4 for the planned model-checking design)"
 
